@@ -511,7 +511,7 @@ func runC11(c *h.Ctx) {
 
 	// ---- Protobuf: projection by field number
 	c.Run("proto-cut", c.N(4000, 100000), func(cs *h.Case) {
-		sc := gen.GenPSchema(cs.R, gen.PCfg{MaxDepth: 2, MaxFields: 6, Nested: cs.R.Bool(), Enums: true, BigNums: cs.R.Chance(30)})
+		sc := gen.GenPSchema(cs.R, gen.PCfg{Unpacked: true, MaxDepth: 2, MaxFields: 6, Nested: cs.R.Bool(), Enums: true, BigNums: cs.R.Chance(30)})
 		pc, err := PCompile(sc)
 		if err != nil {
 			cs.Cover("oracle_schema_rejected")
